@@ -639,6 +639,9 @@ func c03Gen(tier string, rng *rand.Rand, emit func(Case)) {
 	}
 }
 
+// packet sizes a server may announce: usual ones and the boundaries of what the 16-bit header field admits
+var packSizes = []int{512, 1024, 2048, 4096, 8192, 16384, 9, 10, 511, 513, 32767, 32768, 40000, 65534, 65535}
+
 func c11Response(rng *rand.Rand) []respPkg {
 	var r []respPkg
 	n := 1 + rng.Intn(6)
@@ -659,7 +662,7 @@ func c11Response(rng *rand.Rand) []respPkg {
 				case 2:
 					ms = append(ms, [3]string{"\x03", "utf8", "iso_1"})
 				default:
-					ms = append(ms, [3]string{"\x04", strconv.Itoa(512 * (1 + rng.Intn(16))), "512"})
+					ms = append(ms, [3]string{"\x04", strconv.Itoa(packSizes[rng.Intn(len(packSizes))]), "512"})
 				}
 			}
 			r = append(r, rEnv(ms...))
